@@ -507,3 +507,14 @@ Theorem cancel_any_time_writes_nothing_refuted :
     r_errors r1 = false /\ exists p, lookup d0 p = None /\ lookup (disk st1) p <> None.
 Proof. exact cancel_any_time_writes_nothing_refuted_w. Qed.
 Print Assumptions cancel_any_time_writes_nothing_refuted.
+
+(* REFUTED (why relative_dir_has_no_dotdot needs "no backslash in file names"):
+   a Unix directory literally named a\..\..\..\b puts the output outside the
+   output directory with the default template (replayed on the real code) *)
+Theorem backslash_in_name_escapes_refuted :
+  exists outdir outbase entry,
+    is_rooted outbase = true /\ is_rooted entry = true /\
+    let out := entry_out_path outdir default_entry_template outbase entry [] [] ext_js in
+    firstn (List.length (clean_segs outdir)) (clean_segs out) <> clean_segs outdir.
+Proof. exact backslash_in_name_escapes_refuted_w. Qed.
+Print Assumptions backslash_in_name_escapes_refuted.
